@@ -190,7 +190,7 @@ pub fn exec_op(sim: &Sim, op: &Op, in_cb: bool) {
         c08_cell(sim, op);
     }
     match op {
-        Op::Nop | Op::Dispatch(_) | Op::DropLoop | Op::Run { .. } => {}
+        Op::Nop | Op::Dispatch(_) | Op::DropLoop | Op::Run { .. } | Op::BlockOn { .. } => {}
         Op::InsertPing { id, script } => {
             let Some(h) = handle(sim) else { return };
             if sim.st.borrow().srcs.contains_key(id) {
